@@ -100,20 +100,86 @@ type Call struct {
 	Groups    []string
 	Action    string
 	Preemptor string
+	// evict only: the running pods that the solver's statement evicted AND re-placed in the simulation that
+	// led to this committed eviction (scenario victims that were "unevicted" / re-pipelined), see simTrack
+	Replaced []string
 }
 
 type recorder struct {
 	cache.Cache
 	calls []Call
+	sim   simTrack
+}
+
+// simTrack follows the session's statements through framework.EventHandler (an exported API: the plugins use it
+// to keep queue shares up to date).  AllocateFunc fires on Statement.Allocate / Pipeline / unevict, DeallocateFunc
+// on Statement.Evict / unallocate / unpipeline - for simulated operations too.  Tracked: the pods whose simulated
+// status deviates from the committed one (evicted: running pod evicted in the statement; placed: pending pod
+// placed in the statement) and, since the last moment without any deviation, the running pods that were evicted
+// and placed again (replaced).  A failed scenario is discarded (all deviations undone), so at a commit `replaced`
+// holds the re-placed pods of the statement that is being committed.
+// What is NOT observable this way: jobs the simulation popped and skipped or failed to place (no statement
+// operation), i.e. the pop order of JobsOrderByQueues itself.
+type simTrack struct {
+	evicted, placed, replaced, victims map[string]bool
+}
+
+func (t *simTrack) settle() {
+	if t.evicted == nil {
+		t.evicted, t.placed, t.replaced, t.victims = map[string]bool{}, map[string]bool{}, map[string]bool{}, map[string]bool{}
+	}
+	if len(t.evicted) == 0 && len(t.placed) == 0 {
+		for k := range t.replaced {
+			delete(t.replaced, k)
+		}
+		for k := range t.victims {
+			delete(t.victims, k)
+		}
+	}
+}
+
+func (t *simTrack) onAllocate(pod string) {
+	t.settle()
+	if t.evicted[pod] {
+		delete(t.evicted, pod)
+		t.replaced[pod] = true
+		return
+	}
+	t.placed[pod] = true
+}
+
+func (t *simTrack) onDeallocate(pod string) {
+	t.settle()
+	if t.placed[pod] {
+		delete(t.placed, pod)
+		return
+	}
+	t.evicted[pod] = true
+}
+
+func (t *simTrack) replacedNow() []string {
+	var out []string
+	for p := range t.replaced {
+		if !t.evicted[p] && !t.victims[p] {
+			out = append(out, p)
+		}
+	}
+	sort.Strings(out)
+	return out
 }
 
 func (r *recorder) Bind(p *pod_info.PodInfo, hostname string, ann map[string]string) error {
+	r.sim.settle()
+	delete(r.sim.placed, p.Name)
 	r.calls = append(r.calls, Call{Kind: "bind", Pod: p.Name, Node: hostname, Groups: append([]string{}, p.GPUGroups...)})
 	return nil
 }
 
 func (r *recorder) Evict(pod *v1.Pod, job *podgroup_info.PodGroupInfo, md eviction_info.EvictionMetadata, msg string) error {
-	c := Call{Kind: "evict", Pod: pod.Name, Action: md.Action}
+	r.sim.settle()
+	c := Call{Kind: "evict", Pod: pod.Name, Action: md.Action, Replaced: r.sim.replacedNow()}
+	delete(r.sim.evicted, pod.Name)
+	r.sim.victims[pod.Name] = true
 	if md.Preemptor != nil {
 		c.Preemptor = md.Preemptor.Name
 	}
@@ -122,6 +188,8 @@ func (r *recorder) Evict(pod *v1.Pod, job *podgroup_info.PodGroupInfo, md evicti
 }
 
 func (r *recorder) TaskPipelined(t *pod_info.PodInfo, msg string) {
+	r.sim.settle()
+	delete(r.sim.placed, t.Name)
 	r.calls = append(r.calls, Call{Kind: "pipe", Pod: t.Name, Node: t.NodeName, Groups: append([]string{}, t.GPUGroups...)})
 }
 
@@ -277,6 +345,10 @@ func Build(w *World) *Built {
 	}
 	b.Rec = &recorder{Cache: b.Ssn.Cache}
 	b.Ssn.Cache = b.Rec
+	b.Ssn.AddEventHandler(&framework.EventHandler{
+		AllocateFunc:   func(e *framework.Event) { b.Rec.sim.onAllocate(e.Task.Name) },
+		DeallocateFunc: func(e *framework.Event) { b.Rec.sim.onDeallocate(e.Task.Name) },
+	})
 	return b
 }
 
